@@ -197,6 +197,18 @@ class Radio:
             return tuple(Sym(("reg", r, "byte", j), "int").key() for j in range(5))
         if isinstance(v, Const) and isinstance(v.v, (bytes, bytearray)):
             return tuple(Const(b).key() for b in v.v)
+        if isinstance(v, Bytes) and v.parts and all(isinstance(const_of(norm(ln)), int) for _t, ln in v.parts):
+            # symbolic content of known length: the per-byte symbols the interpreter uses when iterating over it
+            out = []
+            for tag, ln in v.parts:
+                for j in range(const_of(norm(ln))):
+                    if tag[0] == "const":
+                        out.append(Const(tag[1][j]).key())
+                    elif tag[0] == "items" and len(tag) > 2:
+                        out.append(norm(tag[2][j]).key())
+                    else:
+                        out.append(Sym(("byteof", repr(tag)[:80], j), "int").key())
+            return tuple(out)
         return None
 
     def shadow_matches(self, st, r):
